@@ -135,6 +135,11 @@ mod api {
 	pub trait Pos {
 		#[method(name = "opt1")]
 		async fn opt1(&self, nonce: u64, a: Option<u32>) -> RpcResult<Option<u32>>;
+		/// the same signature with the optional type written with its full paths
+		#[method(name = "opt1q")]
+		async fn opt1q(&self, nonce: u64, a: core::option::Option<u32>) -> RpcResult<Option<u32>>;
+		#[method(name = "opt1s", blocking)]
+		fn opt1s(&self, nonce: u64, a: ::std::option::Option<u32>) -> RpcResult<Option<u32>>;
 		#[method(name = "opt2", aliases = ["pos.opt2"])]
 		fn opt2(&self, nonce: u64, a: String, b: Option<String>, c: Option<Inner>) -> RpcResult<Value>;
 		#[method(name = "mid", blocking)]
@@ -380,6 +385,14 @@ impl PlainServer for Srv {
 impl PosServer for Srv {
 	async fn opt1(&self, nonce: u64, a: Option<u32>) -> RpcResult<Option<u32>> {
 		rec!(self, "Pos::opt1", nonce, a);
+		Ok(a.map(|x| x ^ (self.salt as u32)))
+	}
+	async fn opt1q(&self, nonce: u64, a: core::option::Option<u32>) -> RpcResult<Option<u32>> {
+		rec!(self, "Pos::opt1q", nonce, a);
+		Ok(a.map(|x| x ^ (self.salt as u32)))
+	}
+	fn opt1s(&self, nonce: u64, a: ::std::option::Option<u32>) -> RpcResult<Option<u32>> {
+		rec!(self, "Pos::opt1s", nonce, a);
 		Ok(a.map(|x| x ^ (self.salt as u32)))
 	}
 	fn opt2(&self, nonce: u64, a: String, b: Option<String>, c: Option<Inner>) -> RpcResult<Value> {
@@ -682,6 +695,8 @@ static METHODS: &[MD] = &[
 	note(md("Plain::note", "note", &[], &[NONCE, p("s", Ty::Str)], Array, "sync")),
 	note(md("Plain::note_async", "noteAsync", &["note.async"], &[NONCE, p("m", Ty::MapI64)], Array, "async")),
 	md("Pos::opt1", "pos_opt1", &[], &[NONCE, o("a", Ty::U32)], Array, "async"),
+	md("Pos::opt1q", "pos_opt1q", &[], &[NONCE, o("a", Ty::U32)], Array, "async"),
+	md("Pos::opt1s", "pos_opt1s", &[], &[NONCE, o("a", Ty::U32)], Array, "blocking"),
 	md("Pos::opt2", "pos_opt2", &["pos.opt2"], &[NONCE, p("a", Ty::Str), o("b", Ty::Str), o("c", Ty::Inner)], Array, "sync"),
 	md("Pos::mid", "pos_mid", &[], &[NONCE, o("a", Ty::I64), p("b", Ty::Str)], Array, "blocking"),
 	md("Pos::opt3", "pos_opt3", &[], &[NONCE, o("a", Ty::Bytes), o("b", Ty::Kind), o("c", Ty::MapI64)], Array, "async"),
@@ -928,7 +943,7 @@ fn expected(tag: &str, salt: u64, a: &[Value]) -> Want {
 			&fv::<Rec>(&a[4]),
 		))),
 		"Plain::note" | "Plain::note_async" | "Named::m_note" | "Chain::ping" => Want::Ok(Value::Null),
-		"Pos::opt1" => Want::Ok(v(&fv::<Option<u32>>(&a[1]).map(|x| x ^ (salt as u32)))),
+		"Pos::opt1" | "Pos::opt1q" | "Pos::opt1s" => Want::Ok(v(&fv::<Option<u32>>(&a[1]).map(|x| x ^ (salt as u32)))),
 		"Pos::opt2" => Want::Ok(ret::opt2(salt, n(), &fv::<String>(&a[1]), &fv(&a[2]), &fv(&a[3]))),
 		"Pos::mid" => Want::Ok(v(&(fv::<Option<i64>>(&a[1]), format!("{}{salt}", fv::<String>(&a[2]))))),
 		"Pos::opt3" => Want::Ok(v(&ret::opt3(salt, &fv(&a[1]), &fv(&a[2]), &fv(&a[3])))),
@@ -1357,6 +1372,8 @@ async fn typed_call<C: SubscriptionClientT + Sync>(c: &C, case: &Case, log: &Log
 		"Plain::note" => tc!(PlainClient::note, u64, String),
 		"Plain::note_async" => tc!(PlainClient::note_async, u64, HashMap<String, i64>),
 		"Pos::opt1" => tc!(PosClient::opt1, u64, Option<u32>),
+		"Pos::opt1q" => tc!(PosClient::opt1q, u64, Option<u32>),
+		"Pos::opt1s" => tc!(PosClient::opt1s, u64, Option<u32>),
 		"Pos::opt2" => tc!(PosClient::opt2, u64, String, Option<String>, Option<Inner>),
 		"Pos::mid" => tc!(PosClient::mid, u64, Option<i64>, String),
 		"Pos::opt3" => tc!(PosClient::opt3, u64, Option<Vec<u8>>, Option<Kind>, Option<HashMap<String, i64>>),
